@@ -65,6 +65,11 @@ ATOMS.update({
     'dnbtw': ("modified not between '2021-03-04 09:00:00' and '2021-03-04 10:00:00'", "modified between '2021-03-04 09:00:00' and '2021-03-04 10:00:00'"),
     'deq': ("modified = '2021-03-04 10:00'", None), 'dne': ("modified != '2021-03-04 10:00:00'", None),
 })
+ATOMS.update({
+    # two regular expressions that differ in letter case only, where letter case is syntax
+    'rxiw': ("name =~ '(?i)^a\\w'", None), 'rxiW': ("name =~ '(?i)^a\\W'", None), 'nrxiw': ("name !=~ '(?i)^A\\w'", "name =~ '(?i)^A\\w'"),
+    'rxid': ("name =~ '(?i)^S\\d'", None), 'rxiD': ("name =~ '(?i)^s\\D'", None),
+})
 STAMPS = {'p9': T0 - 0.1, 'q0': T0, 'p4': T0 + 0.4, 'p99': T0 + 0.999, 'r1': T0 + 1, 'r14': T0 + 1.4, 'm59': T0 + 59.5, 'm60': T0 + 60.25, 'h9': T0 - 3600, 'h8': T0 - 3600.5}
 
 
@@ -79,6 +84,9 @@ MEANING = {
     'dyn': lambda n: len(n) >= 2 and n[-1] in 'xX', 'dynall': lambda n: True, 'dynext': lambda n: True,
     'dynrx': lambda n: len(n) >= 2 and n.endswith('t'),
     'likeA': lambda n: n[:1] in 'aA', 'globA': lambda n: n[:1] in 'aA', 'rxA': lambda n: n[:1] == 'a', 'nrxA': lambda n: n[:1] != 'a',
+    'rxiw': lambda n: len(n) >= 2 and n[0] in 'aA' and (n[1].isalnum() or n[1] == '_'), 'rxiW': lambda n: len(n) >= 2 and n[0] in 'aA' and not (n[1].isalnum() or n[1] == '_'),
+    'nrxiw': lambda n: not (len(n) >= 2 and n[0] in 'aA' and (n[1].isalnum() or n[1] == '_')),
+    'rxid': lambda n: len(n) >= 2 and n[0] in 'sS' and n[1].isdigit(), 'rxiD': lambda n: len(n) >= 2 and n[0] in 'sS' and not n[1].isdigit(),
     'dgt': lambda n: _sec(n) > T0, 'dle': lambda n: _sec(n) <= T0, 'dge': lambda n: _sec(n) >= T0 + 1, 'dbtw': lambda n: T0 - 3600 <= _sec(n) <= T0,
     'dnbtw': lambda n: not (T0 - 3600 <= _sec(n) <= T0), 'deq': lambda n: T0 <= _sec(n) <= T0 + 59, 'dne': lambda n: _sec(n) != T0,
 }
@@ -86,7 +94,7 @@ MEANING = {
 TUPLES = {
     'quick': [('gt', 'like', 'isdir', 'hl'), ('ge', 'glob', 'bare', 'btw'),
               ('eq', 'eeq', 'le', 'like'), ('nlike', 'gt', 'nbtw', 'bare'), ('lt', 'ne', 'rx', 'hl'),
-              ('arith', 'len', 'hlge', 'glob'), ('le', 'nrx', 'ene', 'eq'), ('likeA', 'nrxA', 'rxA', 'globA'), ('tgt', 'nanmod', 'szlike', 'litleft', 'frac'), ('tbtw', 'tnbtw', 'nansqrt', 'szrx', 'boolike'), ('nanbtw', 'sznlike', 'litleft2', 'huge', 'lenrx'), ('dgt', 'dle', 'dbtw', 'dnbtw', 'deq'), ('dge', 'dne', 'dgt', 'deq'),
+              ('arith', 'len', 'hlge', 'glob'), ('le', 'nrx', 'ene', 'eq'), ('likeA', 'nrxA', 'rxA', 'globA'), ('tgt', 'nanmod', 'szlike', 'litleft', 'frac'), ('tbtw', 'tnbtw', 'nansqrt', 'szrx', 'boolike'), ('nanbtw', 'sznlike', 'litleft2', 'huge', 'lenrx'), ('dgt', 'dle', 'dbtw', 'dnbtw', 'deq'), ('dge', 'dne', 'dgt', 'deq'), ('rxiw', 'rxiW', 'nrxiw', 'rxid', 'rxiD'),
               ('szpos', 'lc3', 'issym', 'lcge', 'nonot'), ('isf', 'sha', 'shb', 'lc3', 'nonot', 'symlinks'), ('dyn', 'gt', 'eeqw', 'dynrx'), ('dynall', 'glob', 'dynext', 'lt'),
               ('issym', 'big', 'symeq', 'like', 'symlinks')],
 }
